@@ -17,7 +17,7 @@ func TestC19(t *testing.T) { simkit.Main(t, SpecC19()) }
 func TestC13(t *testing.T) { simkit.Main(t, SpecC13()) }
 func TestC16(t *testing.T) { simkit.Main(t, SpecC16()) }
 func TestC17(t *testing.T) { simkit.Main(t, SpecC17()) }
-func TestC18(t *testing.T) { simkit.Main(t, SpecC18()) }
+func TestC18(t *testing.T) { simkit.Main(t, SpecC18Both()) }
 func TestC37(t *testing.T) { simkit.Main(t, SpecC37Both()) }
 func TestC33(t *testing.T) { simkit.Main(t, SpecC33()) }
 func TestC01(t *testing.T) { simkit.Main(t, SpecC01()) }
